@@ -96,6 +96,19 @@ def run_one(binary, wd, lang, cfg_text, data, timeout):
         return classify(0, b"", b"", True), -999
 
 
+# the mod_ options the first set leaves out (parenthesis adders, sorters, closing-brace comments ...)
+MODS2 = ("mod_full_paren_if_bool=true\nmod_full_paren_assign_bool=true\nmod_full_paren_return_bool=true\nmod_full_brace_function=add\nmod_full_brace_using=add\n"
+         "mod_full_brace_if=add\nmod_full_brace_nl=2\nmod_sort_include=true\nmod_sort_using=true\nmod_sort_import=true\nmod_sort_case_sensitive=true\n"
+         "mod_remove_duplicate_include=true\nmod_add_force_c_closebrace_comment=true\nmod_add_long_namespace_closebrace_comment=1\nmod_add_long_class_closebrace_comment=1\n"
+         "mod_add_long_switch_closebrace_comment=1\nmod_add_long_ifdef_endif_comment=1\nmod_add_long_ifdef_else_comment=1\nmod_sort_oc_properties=true\n"
+         "mod_int_long=add\nmod_long_int=force\nmod_unsigned_int=remove\nmod_enum_last_comma=remove\nmod_case_brace=remove\nmod_paren_on_throw=add\n"
+         "nl_collapse_empty_body=true\nnl_squeeze_ifdef=true\nnl_squeeze_paren_close=true\nalign_nl_cont=1\nalign_func_params=true\nalign_typedef_span=2\n")
+# complete statements: the interesting thing is that nothing - not even a line break - follows them
+STATEMENTS = ["if (a != b && c) x();", "if (a != b ? c : d) x;", "return a != b && c;", "x = a < b || c;", "while (a && b != c) { y(); }", "for (;;) z();",
+              "do x(); while (a || b == 1);", "switch (a) { case 1: return; }", "int v = (a) ? b : c;", "using namespace std;", "#include <a.h>", "#define M(a) a",
+              "a = b; // c", "a = b; /* c */", "else x();", "typedef int t;", "enum e { A, B, };", "throw a && b;", "x = [](){ return 1; };", "} // end"]
+
+
 def truncations(r, data, n):
     """cut points: line boundaries, and bytes inside lines (so that the file ends inside a token, without a newline)"""
     out = []
@@ -173,6 +186,31 @@ def make_inputs(r, tier):
             cases.append(("tail-mods", L, MODS, b"void g(int a)\n{\n  switch (a) {\n  case 1: {\n    a++;\n    break;\n  }\n  }\n  if (a) b = 1; else\n  " + tb))
             if tier != "quick" or r.random() < 0.3:
                 cases.append(("tail-in-func", L, "", b"void g()\n{\n  x = 1;\n  " + tb))
+    # the other mod_ options and the curated profiles: complete statements with nothing behind them, the tails, and generated
+    # compilable programs cut at every kind of place
+    profdir = os.path.join(common.ROOT, "profiles")
+    profs = [open(os.path.join(profdir, f)).read() for f in sorted(os.listdir(profdir)) if f.endswith(".cfg")]
+    cfgs = [MODS2, MODS] + profs
+    for st in STATEMENTS:
+        sb = st.encode()
+        for L in ("C", "CPP", "CS", "JAVA", "OC", "D"):
+            for ci, cfg in enumerate(cfgs):
+                if tier == "quick" and ci >= 2 and r.random() < 0.7:
+                    continue
+                cases.append(("statement-at-eof", L, cfg, sb))
+                cases.append(("statement-in-func-at-eof", L, cfg, b"void g(int a)\n{\n  " + sb + b" }"))
+    for t in TAILS:
+        if tier == "quick" and r.random() < 0.8:
+            continue
+        for L in ("C", "CPP"):
+            cases.append(("tail-mods2", L, MODS2, b"void g(int a)\n{\n  if (a != b && c) x();\n  " + t.encode("latin1")))
+            cases.append(("tail-profile", L, r.choice(profs), b"void g(int a)\n{\n  x = a;\n  " + t.encode("latin1")))
+    from .. import cprogs
+    for i in range(6 if tier == "quick" else 120):
+        cpp = i % 2 == 1
+        data = cprogs.program(r, nfunc=r.randint(1, 2), size=r.choice([8, 16]), cpp=cpp).encode()
+        for kind, d in truncations(r, data, 3 if tier == "quick" else 6):
+            cases.append(("gen-%s" % kind, "CPP" if cpp else "C", r.choice(cfgs), d))
     return cases
 
 
